@@ -2,7 +2,7 @@
    The decision is  is_subtype(a, b) = is_empty(a \ b).  Theorems here are about that top level (Model/Subtype.v, with the
    emptiness of list and mapping components as a parameter); the list and mapping emptiness procedures themselves are
    judged by enumeration of values on the implementation (see DESIGN.md). *)
-From Beff Require Import Model.Subtype Proofs.C05.
+From Beff Require Import Model.Subtype Proofs.C05 Proofs.SemOps.
 
 (* "two types are reported equivalent exactly when each is assignable to the other" *)
 Theorem C05_same_type_is_mutual_assignability :
@@ -23,10 +23,46 @@ Theorem C05_assignability_is_emptiness_of_difference :
     sem_is_subtype struct_empty a b = (do d <- sem_diff a b; sem_is_empty struct_empty d).
 Proof. reflexivity. Qed.
 
+(* difference of semantic types is set difference of what they denote, for every valid point and every interpretation
+   of the structural atoms (the SemType level of the C06 theorems: the merge of the two tag-sorted vectors) *)
+Theorem C05_difference_is_set_difference :
+  forall t1 t2 t pt,
+    wf2 t1 = true -> wf2 t2 = true -> valid_point pt = true -> sem_diff t1 t2 = Ok t ->
+    mem t pt = mem t1 pt && negb (mem t2 pt).
+Proof. exact sem_diff_mem. Qed.
+
+(* "assignable" answers are sound for every pair of well-formed types, structural components included, as soon as the
+   emptiness oracle of lists and mappings is sound on the structured points values realise *)
+Theorem C05_assignable_implies_inclusion :
+  forall struct_empty (realisable : (atom -> bool) -> Prop),
+    (forall p u rho, struct_empty p = Ok true -> realisable rho -> pmem p (PtStruct u rho) = false) ->
+    forall a b, wf2 a = true -> wf2 b = true -> sem_is_subtype struct_empty a b = Ok true ->
+    forall pt, real_point realisable pt -> mem a pt = true -> mem b pt = true.
+Proof. exact subtype_sound. Qed.
+
+(* on the basic fragment (null, booleans, numbers, strings, their literals, unions, differences) the decision is exact:
+   together with the theorem above (no structural component: the oracle is never asked), assignability coincides with
+   inclusion of the denoted sets *)
+Theorem C05_basic_types_assignability_is_inclusion :
+  forall a b,
+    wf2 a = true -> wf2 b = true ->
+    (forall q, In q (st_data a) -> basic_proper q = true) -> (forall q, In q (st_data b) -> basic_proper q = true) ->
+    N.land (st_all a) VAL = st_all a ->
+    (sem_is_subtype no_struct a b = Ok true -> forall pt, valid_point pt = true -> mem a pt = true -> mem b pt = true) /\
+    (sem_is_subtype no_struct a b = Ok false -> exists pt, valid_point pt = true /\ mem a pt = true /\ mem b pt = false).
+Proof.
+  intros a b Wa Wb Ba Bb Hv. split.
+  - intros Hs pt Hp. apply (subtype_sound no_struct (fun _ => True)); auto.
+    + intros p u rho H. destruct p; discriminate H.
+    + split; [exact Hp|]. destruct pt; exact I.
+  - apply subtype_complete_basic; assumption.
+Qed.
+
 (* non-vacuity: "a" | 1 is assignable to string | 1 | 2 and not the other way round *)
 Definition ex_a : semtype := mkSem 0 [PNumber true [NLit 1]; PString true [STpl [TplConst "a"]]].
 Definition ex_b : semtype := mkSem (stag_code TgString) [PNumber true [NLit 1; NLit 2]].
 Example C05_nonvacuous :
+  wf2 ex_a = true /\ wf2 ex_b = true /\ N.land (st_all ex_a) VAL = st_all ex_a /\
   sem_is_subtype no_struct ex_a ex_b = Ok true /\ sem_is_subtype no_struct ex_b ex_a = Ok false /\
   sem_is_same no_struct ex_a ex_b = Ok false /\ sem_is_same no_struct ex_a ex_a = Ok true.
 Proof. repeat split; vm_compute; reflexivity. Qed.
@@ -34,3 +70,6 @@ Proof. repeat split; vm_compute; reflexivity. Qed.
 Print Assumptions C05_same_type_is_mutual_assignability.
 Print Assumptions C05_same_type_answer.
 Print Assumptions C05_assignability_is_emptiness_of_difference.
+Print Assumptions C05_difference_is_set_difference.
+Print Assumptions C05_assignable_implies_inclusion.
+Print Assumptions C05_basic_types_assignability_is_inclusion.
